@@ -118,6 +118,8 @@ let h_pcase args : fail list =
       | L (A "hook" :: acts) -> Some (List.map action_of_sexp acts)
       | _ -> failwith "bad env" in
     let env = { orc = oracle; hook = hook } in
+    (* the hypothesis of the non-interference theorem about the strconv tables (Coq: osaneb) *)
+    let osane_fail = k "oracle" (osaneb oracle) (fun () -> "a strconv table of the case is not sane (empty or with a line feed; backquotable string with a line feed; IsPrint('\\n'))") in
     let inputs_ok = ref true in
     let chk vs = if not (List.for_all raw_inputs_ok vs) then inputs_ok := false in
     let chka acts = if not (List.for_all act_raw_ok acts) then inputs_ok := false in
@@ -133,6 +135,7 @@ let h_pcase args : fail list =
       | L (A "builder" :: acts) -> let acts = List.map action_of_sexp acts in chka acts; "builder", builder fuel env acts
       | _ -> failwith "bad entry" in
     incr nontrivial;
+    osane_fail @
     let qout (o : bytes) =
       if !inputs_ok then q_redactable kind o else [] in
     (match r, obs with
